@@ -2,6 +2,7 @@ package main
 
 import (
 	"fmt"
+	"go/types"
 	"strings"
 
 	"golang.org/x/tools/go/ssa"
@@ -141,6 +142,34 @@ func ruleCleanerDeletes(c *Check, rWhat, rKeep, rNewest, rStale, rErrors, rDisab
 	nDel1, nDel2, bad := 0, 0, 0
 	badErr, badStale := 0, 0
 	nAppend := 0
+	// roles, discovered from the calls (not from source names): the candidate
+	// list is what is sorted; the comparator and the two filters are the
+	// function arguments of SortFunc / lo.Filter in call order
+	candVar, sortFn, filter1, filter2 := "", "", "", ""
+	for i := range paths {
+		p := &paths[i]
+		fl := callsOf(p, "github.com/samber/lo.Filter")
+		so := callsOf(p, "slices.SortFunc")
+		if len(fl) == 2 && len(so) == 1 && len(so[0].Args) == 2 {
+			candVar = so[0].Args[0]
+			sortFn = strings.TrimPrefix(strings.TrimPrefix(so[0].Args[1], "func:"), "closure:")
+			filter1 = strings.TrimPrefix(fl[0].Args[1], "closure:")
+			filter2 = strings.TrimPrefix(fl[1].Args[1], "closure:")
+		}
+	}
+	if candVar == "" || c.P.Func(sortFn) == nil || c.P.Func(filter1) == nil || c.P.Func(filter2) == nil {
+		c.Undecided(rWhat, fnCleanerRun+"/chain", "expected sort(candidates) followed by two lo.Filter calls with function arguments", pos)
+		return
+	}
+	// the stale list: the slice of NameInfo that the second filter appends to
+	tooOld := freeOfType(c.P.Func(filter2), func(t types.Type) bool {
+		sl, ok := t.Underlying().(*types.Slice)
+		return ok && strings.HasSuffix(types.TypeString(sl.Elem(), nil), "snapshot.NameInfo")
+	})
+	seenInst := freeOfType(c.P.Func(filter2), func(t types.Type) bool {
+		_, ok := t.Underlying().(*types.Map)
+		return ok
+	})
 	for i := range paths {
 		p := &paths[i]
 		en, ef := condTruth(p, ".conf.Enabled", -1)
@@ -171,7 +200,7 @@ func ruleCleanerDeletes(c *Check, rWhat, rKeep, rNewest, rStale, rErrors, rDisab
 		}
 		// candidates: appended only for parsed snapshot names of the listing
 		for _, ap := range callsOf(p, "builtin:append") {
-			if !strings.HasPrefix(ap.Args[0], "loop:removalCandidates@") {
+			if ap.Args[0] != candVar {
 				continue
 			}
 			nAppend++
@@ -198,15 +227,14 @@ func ruleCleanerDeletes(c *Check, rWhat, rKeep, rNewest, rStale, rErrors, rDisab
 				so := callsOf(p, "slices.SortFunc")
 				ok := len(fl) == 2 && len(so) == 1 &&
 					strings.HasPrefix(arg, fl[1].Res+"[") && strings.HasSuffix(arg, "].FullName") &&
-					fl[1].Args[0] == fl[0].Res && fl[1].Args[1] == "closure:"+fnCleanerRun+"$filter2" &&
-					fl[0].Args[1] == "closure:"+fnCleanerRun+"$filter" && strings.HasPrefix(fl[0].Args[0], "loop:removalCandidates@") &&
-					so[0].Args[0] == fl[0].Args[0] && so[0].Args[1] == "func:"+fnCleanerRun+"$sort" &&
+					fl[1].Args[0] == fl[0].Res && fl[0].Args[0] == candVar && strings.HasPrefix(candVar, "loop:") &&
+					so[0].Args[0] == fl[0].Args[0] &&
 					eventIndex(p, so[0]) < eventIndex(p, fl[0]) && eventIndex(p, fl[0]) < eventIndex(p, fl[1])
 				if !ok {
 					bad++
 					c.Bad(rWhat, fnCleanerRun+"/superseded-delete", "the first Delete does not delete the FullName of an element of Filter(newest-protected) ∘ Filter(keep-interval) ∘ sort(newest first) of the candidates", evPos(c, d), describe(c, p))
 				}
-			case strings.HasPrefix(arg, "local:tooOld["):
+			case tooOld != "" && strings.HasPrefix(arg, "local:"+tooOld+"["):
 				nDel2++
 				elem := strings.TrimSuffix(arg, ".FullName")
 				gc := callsOf(p, "syncer/cleaner.(*Worker).GetCommitted")
@@ -266,7 +294,7 @@ func ruleCleanerDeletes(c *Check, rWhat, rKeep, rNewest, rStale, rErrors, rDisab
 
 	// closure tables
 	// $1 comparator: newest first
-	c1n := fnCleanerRun + "$sort"
+	c1n := sortFn
 	f1, p1 := c.walkFn(rNewest, c1n, WalkConfig{})
 	if p1 != nil {
 		a, b := param(f1, 0), param(f1, 1)
@@ -290,23 +318,25 @@ func ruleCleanerDeletes(c *Check, rWhat, rKeep, rNewest, rStale, rErrors, rDisab
 		c.Expect(okc, rNewest, c1n, "the sort comparator orders candidates newest first at full timestamp resolution: a after b ⇒ −1, a before b ⇒ +1, otherwise 0", "the sort comparator is not 'newest first' on the full timestamps (After ⇒ −1, Before ⇒ +1, else 0): the entry treated as an instance's newest would be wrong", c.P.Pos(f1.Pos()))
 	}
 	// $2 keep interval
-	c2n := fnCleanerRun + "$filter"
+	c2n := filter1
 	f2, p2 := c.walkFn(rKeep, c2n, WalkConfig{})
 	if p2 != nil {
 		ni := param(f2, 0)
 		ok2 := true
 		nTrue := 0
+		wF := "*free:" + freeOfType(f2, func(t types.Type) bool { return strings.HasSuffix(types.TypeString(t, nil), "cleaner.Worker") })
+		nowF := "*free:" + freeOfType(f2, func(t types.Type) bool { return types.TypeString(t, nil) == "time.Time" })
 		for i := range p2 {
 			p := &p2[i]
 			lk := ""
 			for _, e := range p.Events {
-				if e.Kind == "cond" && strings.HasPrefix(e.Cond.Atom.A, "lookup(*free:w.snapFirstSeen,"+ni+".FullName)@") {
+				if e.Kind == "cond" && strings.HasPrefix(e.Cond.Atom.A, "lookup("+wF+".snapFirstSeen,"+ni+".FullName)@") {
 					lk = strings.TrimSuffix(e.Cond.Atom.A, "#1")
 				}
 			}
 			exists, ef := boolCond(p, lk+"#1", -1)
-			age := "(time.Time).Sub(*free:now, " + lk + "#0)"
-			r := p.State.RelOf("int", age, "*free:w.conf.MustKeepInterval")
+			age := "(time.Time).Sub(" + nowF + ", " + lk + "#0)"
+			r := p.State.RelOf("int", age, wF+".conf.MustKeepInterval")
 			ret := p.Rets[0]
 			switch {
 			case lk == "" || !ef:
@@ -315,7 +345,7 @@ func ruleCleanerDeletes(c *Check, rWhat, rKeep, rNewest, rStale, rErrors, rDisab
 				// first seen now; never deletable in this run
 				set := false
 				for _, e := range p.Events {
-					if e.Kind == "mapupdate" && e.Addr == "*free:w.snapFirstSeen" && e.Key == ni+".FullName" && e.Val == "*free:now" {
+					if e.Kind == "mapupdate" && e.Addr == wF+".snapFirstSeen" && e.Key == ni+".FullName" && e.Val == nowF {
 						set = true
 					}
 				}
@@ -332,15 +362,17 @@ func ruleCleanerDeletes(c *Check, rWhat, rKeep, rNewest, rStale, rErrors, rDisab
 		c.Expect(ok2 && nTrue == 1, rKeep, c2n, "a candidate passes the keep-interval filter only when it was already in snapFirstSeen and now − firstSeen > MustKeepInterval (strictly); a name seen for the first time is recorded with 'now' and kept", "the keep-interval filter lets a candidate through that was not first seen strictly more than MustKeepInterval ago (or does not record the first-seen time)", c.P.Pos(f2.Pos()))
 	}
 	// $3 newest protected
-	c3n := fnCleanerRun + "$filter2"
+	c3n := filter2
 	f3, p3 := c.walkFn(rNewest, c3n, WalkConfig{})
 	if p3 != nil {
 		ni := param(f3, 0)
 		ok3 := true
 		nPass, nOld := 0, 0
+		wF := "*free:" + freeOfType(f3, func(t types.Type) bool { return strings.HasSuffix(types.TypeString(t, nil), "cleaner.Worker") })
+		nowF := "*free:" + freeOfType(f3, func(t types.Type) bool { return types.TypeString(t, nil) == "time.Time" })
 		for i := range p3 {
 			p := &p3[i]
-			seenT, sf := condTruth(p, "lookup(*free:seenInstances,"+ni+".InstanceID)@", -1)
+			seenT, sf := condTruth(p, "lookup(*free:"+seenInst+","+ni+".InstanceID)@", -1)
 			ret := p.Rets[0]
 			if !sf {
 				ok3 = false
@@ -353,17 +385,17 @@ func ruleCleanerDeletes(c *Check, rWhat, rKeep, rNewest, rStale, rErrors, rDisab
 			}
 			marked := false
 			for _, e := range p.Events {
-				if e.Kind == "mapupdate" && e.Addr == "*free:seenInstances" && e.Key == ni+".InstanceID" && e.Val == "const:true" {
+				if e.Kind == "mapupdate" && e.Addr == "*free:"+seenInst && e.Key == ni+".InstanceID" && e.Val == "const:true" {
 					marked = true
 				}
 			}
 			ok3 = ok3 && ret == "const:false" && marked
 			for _, e := range p.Events {
-				if e.Kind == "store" && e.Addr == "free:tooOld" {
+				if e.Kind == "store" && e.Addr == "free:"+tooOld {
 					nOld++
-					r := p.State.RelOf("int", "(time.Time).Sub(*free:now, "+ni+".Timestamp)", "*free:w.conf.RemoveOldInstancesInterval")
+					r := p.State.RelOf("int", "(time.Time).Sub("+nowF+", "+ni+".Timestamp)", wF+".conf.RemoveOldInstancesInterval")
 					ap := callsOf(p, "builtin:append")
-					ok3 = ok3 && r == GT && len(ap) == 1 && ap[0].Args[1] == "["+ni+"]" && ap[0].Args[0] == "*free:tooOld"
+					ok3 = ok3 && r == GT && len(ap) == 1 && ap[0].Args[1] == "["+ni+"]" && ap[0].Args[0] == "*free:"+tooOld
 				}
 			}
 		}
@@ -377,7 +409,7 @@ func ruleCleanerDeletes(c *Check, rWhat, rKeep, rNewest, rStale, rErrors, rDisab
 		for _, b := range f.Blocks {
 			for _, in := range b.Instrs {
 				if st, ok := in.(*ssa.Store); ok {
-					if a, ok := st.Addr.(*ssa.Alloc); ok && a.Comment == "tooOld" {
+					if a, ok := st.Addr.(*ssa.Alloc); ok && a.Comment == tooOld && a.Parent() == fn {
 						if k, isK := st.Val.(*ssa.Const); isK && k.Value == nil {
 							continue // initial nil
 						}
